@@ -2,6 +2,7 @@ package main
 
 import (
 	"bytes"
+	"crypto/sha256"
 	"fmt"
 	"sync"
 
@@ -68,6 +69,33 @@ func kernelsBabybear(c *mon.Ctx) {
 						}
 					}
 				}
+			}
+		}
+		c.Class(fmt.Sprintf("%s/FFT/log%d", N, lg))
+	}
+	// large domains: the vector kernels count blocks of 16 elements in registers, and butterfly layers of 2^20 elements
+	// and more only exist from 2^21 points on; digests of the outputs are recorded
+	bigLogs := []int{21}
+	if c.Thorough() {
+		bigLogs = append(bigLogs, 22, 23)
+	}
+	for _, lg := range bigLogs {
+		n := 1 << lg
+		d := fft.NewDomain(uint64(n))
+		src := rnd(n)
+		for _, dec := range []fft.Decimation{fft.DIF, fft.DIT} {
+			for _, nbt := range []int{1, 4} {
+				a := append([]fr.Element(nil), src...)
+				rec(c, fmt.Sprintf("%s/FFT/log%d/dec%d/tasks%d/digest", N, lg, dec, nbt), func() []byte {
+					d.FFT(a, dec, fft.WithNbTasks(nbt))
+					h := sha256.Sum256(rawBytes(a))
+					return h[:]
+				})
+				rec(c, fmt.Sprintf("%s/FFTInverse/log%d/dec%d/tasks%d/digest", N, lg, dec, nbt), func() []byte {
+					d.FFTInverse(a, dec, fft.WithNbTasks(nbt))
+					h := sha256.Sum256(rawBytes(a))
+					return h[:]
+				})
 			}
 		}
 		c.Class(fmt.Sprintf("%s/FFT/log%d", N, lg))
